@@ -158,7 +158,8 @@ def job(payload):
         # an ar archive: one Dwarf value made of several modules (members whose units end in partial units, or are DIE-less, in the middle)
         import subprocess
         os.makedirs(os.path.join(common.RUN, "forests"), exist_ok=True)
-        adir = os.path.join(common.RUN, "forests", "c05-ar-%s" % "-".join(os.path.basename(m)[:8] for m in arg))
+        idx, arg = arg       # (the index keeps the directories of two jobs with the same members apart: they run side by side)
+        adir = os.path.join(common.RUN, "forests", "c05-ar-%d-%s" % (idx, "-".join(os.path.basename(m)[:8] for m in arg)))
         os.makedirs(adir, exist_ok=True)
         p = os.path.join(adir, "members.a")
         if os.path.exists(p):
@@ -213,7 +214,7 @@ def run(chk):
     if shutil.which("ar") and len(members) >= 3:
         rnga = chk.rng("archives")
         combos = [members[:2], members[1::-1], [members[2], members[0], members[3]]] + [rnga.sample(members, rnga.randint(2, 4)) for _ in range(3 if quick else 40)]
-        jobs += [("archive", c) for c in combos]
+        jobs += [("archive", (i, c)) for i, c in enumerate(combos)]
     nf = 160 if quick else 3200
     jobs += [("forest", (chk.seed * 49979687 + i, 8)) for i in range(nf // 8)]
     zcheck.consume(chk, pool.map(job, jobs), tot, ctx, samples, "C05")
